@@ -762,12 +762,14 @@ func waitScDeadlineChange(sd *waitSide, seq string, n int) func(*waitEnv, *waitR
 	}
 }
 
-// deadline cleared while blocked: no timeout at the old deadline; the call still wakes on data
-func waitScCleared(sd *waitSide) func(*waitEnv, *waitResult, *waitScenario) {
+// deadline cleared while blocked: no timeout at the old deadline (for any of the n parked callers:
+// the one that gets the wake-up token of the setter AND the ones whose timer still runs); the
+// calls still wake on data
+func waitScCleared(sd *waitSide, n int) func(*waitEnv, *waitResult, *waitScenario) {
 	return func(e *waitEnv, r *waitResult, sc *waitScenario) {
 		old := time.Now().Add(2 * waitDl)
 		sd.setDl(e, old)
-		calls := waitStart(e, r, sc, sd, 1)
+		calls := waitStart(e, r, sc, sd, n)
 		if calls == nil || !waitExpectBlocked(e, r, sd, calls, "before the deadline was cleared") {
 			return
 		}
@@ -775,19 +777,30 @@ func waitScCleared(sd *waitSide) func(*waitEnv, *waitResult, *waitScenario) {
 		e.logf("deadline cleared")
 		waitAll(calls, old.Add(400*time.Millisecond))
 		r.check("cleared deadline does not fire")
-		if calls[0].returned() && calls[0].class == "timeout" {
-			calls[0].early = true
+		fired := -1
+		for i, c := range calls {
+			if c.returned() {
+				if c.class == "timeout" {
+					c.early = true
+				}
+				if fired < 0 {
+					fired = i
+				}
+			}
 		}
 		r.Outcome = waitClasses(calls)
-		if calls[0].returned() {
+		if fired >= 0 {
 			key := "deadline-cleared-still-fires:" + sd.kind
+			if n > 1 {
+				key = "deadline-cleared-still-fires:multi-waiter:" + sd.kind
+			}
 			if sd.kind == "Accept" {
 				key = sd.dlKey("cleared")
 			}
-			r.violate(key, "%s: %s returned %s at a deadline that had been cleared before it expired", e.name, sd.kind, calls[0].class)
+			r.violate(key, "%s: %s (caller %d of %d) returned %s at a deadline that had been cleared before it expired", e.name, sd.kind, fired, n, calls[fired].class)
 			return
 		}
-		if err := sd.wake(e, 1); err != nil {
+		if err := sd.wake(e, n); err != nil {
 			r.setupErr = err
 			return
 		}
@@ -1014,7 +1027,10 @@ func waitCatalogue(thorough bool, rng *vrng) []*waitScenario {
 		for _, seq := range []string{"none-then-set", "set-later", "set-earlier", "set-zero-set", "set-past"} {
 			add("deadline-"+seq, sd.kind, 1, pair, waitScDeadlineChange(sd, seq, 1))
 		}
-		add("deadline-cleared", sd.kind, 1, pair, waitScCleared(sd))
+		add("deadline-cleared", sd.kind, 1, pair, waitScCleared(sd, 1))
+		if sd.kind != "Accept" {
+			add("deadline-cleared", sd.kind, 2, pair, waitScCleared(sd, 2))
+		}
 		// several callers parked under a deadline that is then extended
 		add("deadline-set-later", sd.kind, 2, pair, waitScDeadlineChange(sd, "set-later", 2))
 		if thorough {
